@@ -77,12 +77,15 @@ def replay_cells(contract, mod, label, clause_name, clause_expr, param, cells, p
         data = rep(c)
         out = run_native(lambda **kw: fn(*kw.values()) if positional else fn(**kw), {param: data})
         env = native_env(mod)
+        env.update(closure_vars(fn))
         env.update(out)
         env[param] = data
         if clause_name == "modifies-nothing":
             val = not out["mutated"]
         else:
             val = eval_clause(clause_expr, env)
+        if isinstance(val, tuple):
+            continue          # the clause could not be evaluated natively: not a witness (reported as replay trouble)
         if val is not True:
             witnesses.append({
                 "cell": CELL_NAMES[c], "input": describe(rep(c)),
@@ -91,6 +94,18 @@ def replay_cells(contract, mod, label, clause_name, clause_expr, param, cells, p
                 "clause_value": val if isinstance(val, bool) else list(val),
             })
     return witnesses
+
+
+def closure_vars(fn):
+    out = {}
+    code = getattr(fn, "__code__", None)
+    if code is not None and getattr(fn, "__closure__", None):
+        for n, cell in zip(code.co_freevars, fn.__closure__):
+            try:
+                out[n] = cell.cell_contents
+            except ValueError:
+                pass
+    return out
 
 
 def model_cell(model, term, live):
